@@ -2248,3 +2248,6 @@ RV("C17", "C17.R20", "c17-base-class-is-a-namespace", "a79d91d", "base-is-a-clas
 RV("C17", "C17.R21", "c17-variable-dimension-without-value", "929f2c0", "dimension-without-value")
 RV("C18", "C18.R13", "c18-result-cast-in-c-library", "4ec5a49", "cxx_to_c-for-c-library")
 RV("C14", "C14.R16", "c14-instantiation-options-unused", "257e19b", "targs.options")
+RV("C15", "C15.R12", "c15-instantiation-wrap-flags-stale", "09b257b", "wrap-after-options")
+RV("C03", "C03.R1", "c03-unsigned-result-through-signed-ctor", "958fdd3", "PY_ctor:signedness")
+RV("C08", "C08.G1", "c08-clone-shares-generic-list", "9dcb1f7", "shallow-clone-shares-list")
